@@ -568,7 +568,7 @@ func c14Free(ctx *Ctx, i int, rng *rand.Rand, limit, discard int) {
 			switch {
 			case cancelIt:
 				c2, cancel2 := context.WithTimeout(context.Background(), 10*time.Millisecond)
-				err = from.Call(c2, &out, "slow", token, 80)
+				err = from.Call(c2, &out, "slow", token, 600)
 				cancel2()
 				if err == nil {
 					if out != token {
@@ -576,7 +576,9 @@ func c14Free(ctx *Ctx, i int, rng *rand.Rand, limit, discard int) {
 						mon = append(mon, fmt.Sprintf("c14-foreign-reply: call with token %s returned %q", token, out))
 						mu.Unlock()
 					}
-				} else if took := time.Since(t0); took > 60*time.Millisecond {
+				} else if took := time.Since(t0); took > 350*time.Millisecond {
+					// (the handler answers after 600 ms: a call that only returns with the reply takes that
+					// long; the margin is for a loaded machine)
 					mu.Lock()
 					mon = append(mon, fmt.Sprintf("c14-cancel-not-prompt: a call whose context ended after 10 ms returned after %s", took))
 					mu.Unlock()
